@@ -102,6 +102,20 @@ type JSONSample struct {
 	Tag string  `json:"tag"`
 	N   int     `json:"n"`
 	F   float64 `json:"f"`
+	// Pad varies the length of the encoded line (0-300 bytes), so that buffer and chunk boundaries of the encoder
+	// fall on every position of a line within a modest number of samples
+	Pad string `json:"pad,omitempty"`
+}
+
+// PadFor derives the padding of sample k.
+func PadFor(k int) string {
+	const p = "pppppppppppppppppppppppppppppppppppppppppppppppppppppppppppppppppppppppppppppppppppppppppppppppppppppppppppppppppppp"
+	n := (k*k*37 + k*11) % 301
+	s := ""
+	for len(s) < n {
+		s += p
+	}
+	return s[:n]
 }
 
 func DefaultGunScript() *GunScript {
@@ -184,7 +198,7 @@ func (g *Gun) Shoot(ammo core.Ammo) {
 	if g.f.Script.Report && g.aggr != nil {
 		tag := fmt.Sprintf("i%d_s%d", g.inst, k)
 		if g.f.Script.JSONSamples {
-			g.aggr.Report(&JSONSample{Tag: tag, N: k})
+			g.aggr.Report(&JSONSample{Tag: tag, N: k, Pad: PadFor(k + 7*g.inst)})
 		} else {
 			s := netsample.Acquire(tag)
 			s.SetProtoCode(200)
